@@ -37,8 +37,8 @@ class UniqueObj(ObjV):
         self.s, self.s0 = s, s
         if record:
             _alloc(path, self)
-        _method(self, 'add', lambda p, a, k: self._set(add1(self.s, name_of(a[1]))))
-        _method(self, 'discard', lambda p, a, k: self._set(If(mem(self.s, name_of(a[1])), seqs.erase(self.s, name_of(a[1])), self.s)))
+        _method(self, 'add', lambda p, a, k: self._set(add1(self.s, name_of(a[1])), p))
+        _method(self, 'discard', lambda p, a, k: self._set(If(mem(self.s, name_of(a[1])), seqs.erase(self.s, name_of(a[1])), self.s), p))
         _method(self, 'replace', self._replace)
         _method(self, 'move', self._move)
         _method(self, 'remove', self._remove)
@@ -54,7 +54,13 @@ class UniqueObj(ObjV):
     def havoc(self, path):
         self.s = fresh_seq(path, self.name)
 
-    def _set(self, s):
+    def _set(self, s, p=None):
+        import z3 as _z3
+        if p is not None and _z3.is_app_of(s, _z3.Z3_OP_ITE):
+            # name the conditional value (if-then-else terms must not end up inside quantifier patterns)
+            c = fresh_seq(p, self.name)
+            p.assume(c == s)
+            s = c
         self.s = s
         return NONE
 
@@ -636,14 +642,14 @@ def _pairs_iand(self, p, a, k):
 
 
 def _unique_iand(self, p, a, k):
-    """ASSUMED contract of MutableSet.__iand__ + Set.__sub__ on a Unique: keeps the own elements that are also in the
+    """contract of MutableSet.__iand__ + Set.__sub__ on a Unique (proved in units stdlib.MutableSet.__iand__.*, stdlib.Set.__sub__.*): keeps the own elements that are also in the
     argument, in the own order (discards the others one by one)."""
     self.s = seqs.keep(self.s, seqs.setof(seq_of_iterable(a[1])))
     return self
 
 
 def _unique_and(self, p, a, k):
-    """ASSUMED contract of Set.__and__ on a Unique: Unique(v for v in other if v in self) -- the order of the RIGHT operand."""
+    """contract of Set.__and__ on a Unique (proved in unit stdlib.Set.__and__.unique): Unique(v for v in other if v in self) -- the order of the RIGHT operand."""
     other = a[1]
     return UniqueObj(p, seqs.keep(seq_of_iterable(other), seqs.setof(self.s)), '(%s & %s)' % (self.name, other.name))
 
@@ -866,7 +872,7 @@ def _derived(kind):
 
 
 register(Unit('definitions.conflicting_pairs', D, 'conflicting_pairs', _unit(_conflicting_pairs),
-              assumptions=ASSUME + ['ASSUMED: Set.__and__ on Unique = the shared names in the order of the right operand (stdlib mixin + Unique.__init__)',
+              assumptions=ASSUME + ['Set.__and__ on Unique = the shared names in the order of the right operand (unit stdlib.Set.__and__.unique; stdlib mixin + Unique.__init__)',
                                     'builtin set ^ : symmetric difference'],
               linkage=[('concepts.definitions.conflicting_pairs', None)]))
 register(Unit('definitions.ensure_compatible', D, 'ensure_compatible', _unit(_ensure_compatible),
@@ -876,7 +882,7 @@ for _k in ('union', 'intersection'):
     register(Unit('definitions.%s_update' % _k, D, 'MutableMixin.%s_update' % _k, _unit(_update(_k)),
                   assumptions=ASSUME + ['requires other is not self (the aliased call is covered on the bounded side only)',
                                         'contract of ensure_compatible (unit definitions.ensure_compatible)',
-                                        'ASSUMED: MutableSet.__iand__ on Unique keeps the shared names in the own order'],
+                                        'MutableSet.__iand__ on Unique keeps the shared names in the own order (units stdlib.MutableSet.__iand__.*)'],
                   linkage=[('concepts.Definition.%s_update' % _k, None)]))
     register(Unit('definitions.%s' % _k, D, 'MutableMixin.%s' % _k, _unit(_derived(_k)),
                   assumptions=['contracts of Triple.copy and %s_update (units definitions.copy / definitions.%s_update)' % (_k, _k)],
@@ -962,7 +968,7 @@ def _take(path):
 
 register(Unit('definitions.take', D, 'TransformableMixin.take', _unit(_take),
               assumptions=ASSUME + ['contracts of Unique.issuperset (every requested name is present), Unique.__init__ (names in the order given, without repeats), '
-                                    'Unique.copy, ASSUMED MutableSet.__iand__ (keeps the shared names in the own order)', 'the rendered list of unknown names is not specified'],
+                                    'Unique.copy, MutableSet.__iand__ (keeps the shared names in the own order; units stdlib.MutableSet.__iand__.*)', 'the rendered list of unknown names is not specified'],
               linkage=[('concepts.Definition.take', None)], max_paths=2000))
 
 
@@ -1220,3 +1226,140 @@ def _lemma_fresh_equal():
 
 register(Unit('lemma.fresh_equal', None, None, _lemma_fresh_equal,
               assumptions=['with WF and the no-residue invariant a definition equals (Triple.__eq__) the definition built from its own (objects, properties, bools)']))
+
+
+# =============================================================================================
+# stdlib Set / MutableSet mixins on tools.Unique (real source of the running interpreter): __sub__, __and__, __iand__
+# -- the contracts `_unique_iand` / `_unique_and` used above are proved here instead of being assumed
+
+def _stdlib_set_unit(which, other_kind):
+    def body(path):
+        from contracts.tools_unique import stdlib_path
+        NSet = seqs.NSet
+        y = Const('y', Name)
+        this = UniqueObj(path, fresh_seq(path, 'self'), 'self', record=False)
+        path.assume(nodup(this.s))
+        s0 = this.s
+        if other_kind == 'unique':
+            other = UniqueObj(path, fresh_seq(path, 'other'), 'other', record=False)
+            path.assume(nodup(other.s))
+            other.isinstance_fn = lambda names: BoolVal(bool({'Set', 'Iterable', 'MutableSet'} & set(names)))
+        else:
+            other = NameSeqArg(path, 'other')
+            other.isinstance_fn = lambda names: BoolVal('Iterable' in names)
+        this.isinstance_fn = lambda names: BoolVal(bool({'Set', 'Iterable', 'MutableSet'} & set(names)))
+        T = Const('set(other)', NSet)
+        Tc = Const('not-in-other', NSet)
+        path.assume(ForAll([y], Select(T, y) == mem(other.s, y), patterns=[Select(T, y), mem(other.s, y)]))
+        path.assume(ForAll([y], Select(Tc, y) == Not(mem(other.s, y)), patterns=[Select(Tc, y)]))
+        Ts = Const('set(self)', NSet)
+        path.assume(ForAll([y], Select(Ts, y) == mem(s0, y), patterns=[Select(Ts, y), mem(s0, y)]))
+        made = []
+
+        def from_iterable(p, a, k):
+            it = a[-1]
+            from pyvc.engine import FilterV
+            if isinstance(it, FilterV):
+                # Unique(<filter of a label sequence>): contract of Unique.__init__ (unit tools.Unique.__init__) on the filtered sequence
+                base = it.base
+                j = p.fresh_int('j')
+                src_seq = getattr(base, 'seq_term', None)
+                okb = src_seq is not None
+                p.oblige('pre@_from_iterable/filter-of-a-label-sequence', 'pre@call', BoolVal(okb))
+                if not okb:
+                    raise Unsupported('filter base')
+                p.oblige('pre@_from_iterable/elements-are-the-sequence-elements', 'pre@call', it.elt(j).t == seqs.at(src_seq, j))
+                sel = it.cond(j)
+                # which set the condition selects: decided by the harness from the two candidates (not in other / in self)
+                if src_seq is s0 or src_seq is this.s:
+                    p.oblige('pre@_from_iterable/condition', 'pre@call', sel == Select(Tc, seqs.at(src_seq, j)))
+                    kept = seqs.keep(src_seq, Tc)
+                else:
+                    p.oblige('pre@_from_iterable/condition', 'pre@call', sel == Select(Ts, seqs.at(src_seq, j)))
+                    kept = seqs.keep(src_seq, Ts)
+                p.assume([seqs.st_fold_len(kept), seqs.st_fold_facts(seqs.empty, kept, seqs.slen(kept)), seqs.st_mem_infirst(kept)])
+                u = UniqueObj(p, fold_add(seqs.empty, kept, seqs.slen(kept)), 'Unique(filter)')
+            else:
+                src = seq_of_iterable(it)
+                p.assume([seqs.st_fold_len(src), seqs.st_fold_facts(seqs.empty, src, seqs.slen(src)), seqs.st_mem_infirst(src)])
+                u = UniqueObj(p, fold_add(seqs.empty, src, seqs.slen(src)), 'Unique(%s)' % getattr(it, 'name', 'it'))
+                u.isinstance_fn = lambda names: BoolVal(bool({'Set', 'Iterable', 'MutableSet'} & set(names)))
+            made.append(u)
+            return u
+        for o in (this, other):
+            if isinstance(o, UniqueObj):
+                _method(o, '_from_iterable', from_iterable)
+                orig_iter = o.fields['__iter__']
+
+                def it_(p, a, k, _o=o):
+                    r = _o.iterv()
+                    r.seq_term = _o.s
+                    return r
+                _method(o, '__iter__', it_)
+        if isinstance(other, NameSeqArg):
+            def it2(p, a, k):
+                r = IterV(lambda kk: TermV(seqs.at(other.s, kk)), seqs.slen(other.s), 'iter(other)')
+                r.seq_term = other.s
+                return r
+            _method(other, '__iter__', it2)
+        NotImpl = ObjV('NotImplementedType', {}, name='NotImplemented')
+        g = dict(lib.builtins(), Set=ClassV('Set'), Iterable=ClassV('Iterable'), NotImplemented=NotImpl)
+        extra = {'globals': g}
+        env = {'self': this, ('it' if which == '__iand__' else 'other'): other}
+        if which == '__iand__':
+            def sub_contract(p, a, k):
+                # contract of Set.__sub__ on Unique (unit stdlib.Set.__sub__.*): the own elements not in the argument, in own order
+                D = UniqueObj(p, seqs.keep(this.s, Tc), '(self - it)')
+                return D
+            _method(this, '__sub__', sub_contract)
+            E = seqs.keep(s0, Tc)
+
+            def inv(e, k):
+                s = this.s
+                return [('removed-so-far', s == seqs.erase_fold(s0, E, k)),
+                        ('members', ForAll([y], mem(s, y) == And(mem(s0, y), Not(seqs.infirst(E, y, k))), patterns=[mem(s, y)])),
+                        ('nodup', nodup(s))]
+            spec = LoopSpec(inv)
+            spec.havoc_objs = [this]
+            extra[0] = spec
+
+        def finish(path, env_, outcome):
+            if outcome[0] != 'return':
+                path.oblige('post/no-exception', 'post', BoolVal(False))
+                return
+            r = outcome[1]
+            if which == '__iand__':
+                path.assume([seqs.st_erase_fold_keep(s0, T, Tc), seqs.st_mem_infirst(seqs.keep(s0, Tc))])
+                path.oblige('post/returns-self', 'post', BoolVal(r is this))
+                path.oblige('post/keeps-the-shared-names-in-the-own-order', 'post', this.s == seqs.keep(s0, T))
+                path.oblige('post/other-unchanged', 'post', other.s == other.s0 if hasattr(other, 's0') else BoolVal(True))
+            elif which == '__sub__':
+                path.oblige('post/new-Unique', 'post', BoolVal(isinstance(r, UniqueObj) and r is not this and r in made))
+                if isinstance(r, UniqueObj):
+                    path.oblige('post/own-names-not-in-other-in-own-order', 'post', r.s == seqs.keep(s0, Tc))
+                path.oblige('post/self-unchanged', 'post', this.s == s0)
+            else:
+                path.oblige('post/new-Unique', 'post', BoolVal(isinstance(r, UniqueObj) and r is not this and r in made))
+                if isinstance(r, UniqueObj):
+                    # the shared names in the order of the RIGHT operand
+                    path.oblige('post/shared-names-in-the-order-of-other', 'post', r.s == seqs.keep(other.s, Ts))
+                path.oblige('post/self-unchanged', 'post', this.s == s0)
+        return env, extra, finish
+    return body
+
+
+def _register_stdlib_set():
+    from contracts.tools_unique import stdlib_path
+    sp = stdlib_path()
+    if not sp:
+        return
+    for which, cls in (('__sub__', 'Set'), ('__and__', 'Set'), ('__iand__', 'MutableSet')):
+        for kind in (('unique', 'sequence') if which != '__and__' else ('unique',)):
+            register(Unit('stdlib.%s.%s.%s' % (cls, which, kind), 'ABS:' + sp, '%s.%s' % (cls, which), _unit(_stdlib_set_unit(which, kind)),
+                          assumptions=['the stdlib mixin source of the interpreter that runs the library (3.12.1) is read like repository code',
+                                       'contracts of Unique.__init__ / __iter__ / __contains__ / discard (units tools.Unique.*); '
+                                       'lemmas fold_len, erase_fold_keep (Lean: lemmas/Seq.lean)'],
+                          linkage=[('concepts.tools.Unique.%s' % which, None)]))
+
+
+_register_stdlib_set()
